@@ -15,7 +15,7 @@ if (cd "$WT" && go test -vet=off -count=1 -run "$RUN" "./$PKG/") >/tmp/seedchk_$
 rm "$WT/$PKG/$DEMO"
 if ! git -C "$WT" apply "$SEED/patch.diff"; then echo "patch does not apply"; exit 5; fi
 (cd "$WT" && go build ./...) || { echo "does not build"; exit 6; }
-if /verif/tools/baseline.sh "$WT" | tail -3; then echo "repo suite with the change: PASS (as required)"; else echo "repo suite FAILS with the change (seed rejected)"; exit 7; fi
+if /verif/tools/baseline.sh "$WT" > /tmp/seedchk_base_$$.log 2>&1; then tail -2 /tmp/seedchk_base_$$.log; echo "repo suite with the change: PASS (as required)"; else tail -4 /tmp/seedchk_base_$$.log; echo "repo suite FAILS with the change (seed rejected)"; exit 7; fi
 cp "$SEED/$DEMO" "$WT/$PKG/"
 if (cd "$WT" && go test -vet=off -count=1 -run "$RUN" "./$PKG/") >/tmp/seedchk_$$.log 2>&1; then echo "demo with the change: PASS (seed rejected: not demonstrated)"; exit 8; else echo "demo with the change: FAIL (as required)"; fi
 rm "$WT/$PKG/$DEMO"; rm -f /tmp/seedchk_$$.log
